@@ -33,6 +33,8 @@ func checkC08(p *Prog, r *Report) {
 	idRule(p, r, "R7", subMgr)
 	r.Rule("R8", "the per-device listing filters on the peer identity (SKI of the client feature's device), the per-feature listing on the server feature address")
 	listingRule(p, r, "R8", subMgr)
+	r.Rule("R12", "the subscription list is never used as the backing array of another list (a query that filters into registry[:0] overwrites the registry)")
+	noStrayCompaction(p, ls, r, "R12", map[string]bool{"SubscriptionManager": true})
 	r.Assumes("reflect.DeepEqual and the address getters are not interpreted",
 		"Sender.Notify transmits one datagram per call (C13)")
 }
